@@ -134,7 +134,12 @@ Theorem C09_respace_keeps_numeric_tokens : forall (cf : bool) (a : atom),
 Proof. exact respace_keeps_numeric_tokens. Qed.
 
 (* ... also across --keep-chain and renaming: tokens of the option run's line =
-   numeric columns of the plain run's line *)
+   numeric columns of the plain run's line.  GUARD (explicit hypothesis): num_ok a,
+   i.e. the insertion code is at most one character, x/y/z rendered with three
+   decimals fit 8 columns (-999.999 .. 9999.999), the charge fits 7 of its 8 and the
+   radius 6 of its 7 columns (a separating blank remains).  Outside the guard the
+   statement is NOT claimed (C08 has the refutation witnesses: clipped/fused
+   fields); such atoms are covered by real run pairs only (check module). *)
 Theorem C09_whitespace_options_keep_numeric_tokens :
   forall (cf1 cf2 : bool) (f : atom -> option (string * string)) (a : atom),
   num_ok a = true ->
